@@ -878,6 +878,26 @@ help: Show this message."#,
   }
 }
 
+/// Seam for the deterministic simulator under /verif: the language server of `runners::lsp` with the
+/// transport and the initial state as parameters. Compiled only with `--cfg samlang_verif`.
+#[cfg(samlang_verif)]
+pub mod verif_hooks {
+  pub async fn serve<I, O>(
+    stdin: I,
+    stdout: O,
+    absolute_source_path: std::path::PathBuf,
+    state: samlang_services::server_state::ServerState,
+  ) where
+    I: tokio::io::AsyncRead + Unpin,
+    O: tokio::io::AsyncWrite,
+  {
+    let (service, socket) = tower_lsp::LspService::new(|client| {
+      super::lsp::Backend::new(client, absolute_source_path, state)
+    });
+    tower_lsp::Server::new(stdin, stdout, socket).serve(service).await;
+  }
+}
+
 #[tokio::main]
 async fn main() {
   let arguments = std::env::args().skip(1).collect::<Vec<_>>();
